@@ -203,12 +203,20 @@ def any_module(ch, allow_stress=True):
             ni = m.n_imported_funcs()
             m.func_names = {ni + i: b'fn_%d' % i for i in range(len(m.funcs)) if ch.below(4)}
             add_name_subsections(ch, m, ni + len(m.funcs))
+        if ch.below(3) == 0:
+            # a valid module is valid in every spec-equivalent encoding: padded LEB128 fields, flag-2 data segments, custom sections,
+            # regrouped locals, empty sections, DataCount
+            kn = wasm.Knobs(ch, pad_prob_pct=ch.pick((3, 20, 60)), customs=True, data_flag2=True, empty_sections=True, datacount=True,
+                            local_groups=True)
+            return m, wasm.encode(m, kn), mk + ':enc'
         return m, wasm.encode(m), mk
     if k < 7:
         name, b = ch.pick(spec_modules())
         return None, b, 'spec:' + name
     if k < 9 or not allow_stress:
         m = names_module(ch)
+        if ch.below(4) == 0:
+            return m, wasm.encode(m, wasm.Knobs(ch, pad_prob_pct=10, customs=True, empty_sections=True, local_groups=True)), 'names'
         return m, wasm.encode(m), 'names'
     m = stress_module(ch)
     return m, wasm.encode(m), 'stress'
